@@ -81,6 +81,7 @@ DEFAULTS = dict(
     logical_values=True,
     size_budget=400,
     no_tuples=False,
+    omit_nullable=0.0,  # omit fields without default whose type accepts null
 )
 
 
@@ -172,6 +173,10 @@ class DatumGen:
                 if f.has_default and r.random() < self.o["omit_defaults"]:
                     self.features.add("omitted_default")
                     continue
+                if (not f.has_default and self.o["omit_nullable"] and r.random() < self.o["omit_nullable"]
+                        and _accepts_none(f.type)):
+                    self.features.add("omitted_nullable")
+                    continue
                 d[f.name] = self.gen(f.type, depth + 1)
             if self.o["extras"] and r.random() < self.o["extras"]:
                 d["zz_extra"] = 1
@@ -256,6 +261,13 @@ class DatumGen:
             sign = r.choice([0, 1])
             return decimal.Decimal((sign, tuple(int(c) for c in str(coeff)), -s))
         return None
+
+
+def _accepts_none(t):
+    t = deref(t)
+    if t.kind == "null":
+        return True
+    return t.kind == "union" and any(deref(b).kind == "null" for b in t.branches)
 
 
 def _weight(b):
